@@ -198,7 +198,7 @@ func fieldMap(svcs []fedgen.Service) map[string]fedgen.Field {
 	return m
 }
 
-func runReference(c *Case) (interface{}, string) {
+func runReference(c *Case, w *fedgen.World) (interface{}, string) {
 	if c.QueryText != "" {
 		return nil, "no structured query"
 	}
@@ -229,7 +229,7 @@ func runReference(c *Case) (interface{}, string) {
 		f.Subs = fix(f.Subs)
 		frags[k] = f
 	}
-	e := &refEval{w: fedgen.NewWorld(c.Seed), fields: fieldMap(c.Services), frags: frags, useKey: useKey}
+	e := &refEval{w: w, fields: fieldMap(c.Services), frags: frags, useKey: useKey}
 	r, err := e.object("Query", 0, fix(c.Query))
 	if err != nil {
 		return nil, err.Error()
@@ -262,4 +262,72 @@ func normaliseUnions(v interface{}, path string, strips map[string]*asked) inter
 		return x
 	}
 	return v
+}
+
+// hasPartialUnion: some selection of a union field has no fragment for one of the members.
+func hasPartialUnion(c *Case, frags map[string]FragDef) bool {
+	rets := retMap(c.Services)
+	partial := false
+	var walk func(typ string, sels []Sel)
+	covered := func(sels []Sel, acc map[string]bool) {}
+	var cov func(sels []Sel, acc map[string]bool)
+	cov = func(sels []Sel, acc map[string]bool) {
+		for _, s := range sels {
+			switch {
+			case s.Spread != "":
+				f := frags[s.Spread]
+				if _, ok := fedgen.ObjTypes[f.On]; ok {
+					acc[f.On] = true
+				} else {
+					cov(f.Subs, acc)
+				}
+			case s.On != "":
+				if _, ok := fedgen.ObjTypes[s.On]; ok {
+					acc[s.On] = true
+				} else {
+					cov(s.Subs, acc)
+				}
+			}
+		}
+	}
+	_ = covered
+	walk = func(typ string, sels []Sel) {
+		for _, s := range sels {
+			switch {
+			case s.Spread != "":
+				f := frags[s.Spread]
+				t := typ
+				if _, ok := fedgen.ObjTypes[f.On]; ok {
+					t = f.On
+				}
+				walk(t, f.Subs)
+			case s.On != "":
+				t := typ
+				if _, ok := fedgen.ObjTypes[s.On]; ok {
+					t = s.On
+				}
+				walk(t, s.Subs)
+			default:
+				ret, ok := rets[typ+"."+s.Name]
+				if !ok {
+					continue
+				}
+				switch ret.Kind {
+				case "obj":
+					walk(ret.Target, s.Subs)
+				case "union":
+					acc := map[string]bool{}
+					cov(s.Subs, acc)
+					for _, m := range fedgen.UnionMembers[ret.Target] {
+						if !acc[m] {
+							partial = true
+						}
+					}
+					walk(ret.Target, s.Subs)
+				}
+			}
+		}
+	}
+	walk("Query", c.Query)
+	return partial
 }
